@@ -283,6 +283,10 @@ class EvoWorklist(BaseWorklist):
         ), f"Number of source/destination/volumes must be equal. They were {lengths}"
         if np.any(volumes < 0):
             raise ValueError("Transfer volumes must be positive or zero.")
+        unknown_wells = [w for w in source_wells if w not in source.indices]
+        unknown_wells += [w for w in destination_wells if w not in destination.indices]
+        if unknown_wells:
+            raise KeyError(f"Unknown well IDs: {unknown_wells}")
 
         # automatic partitioning
         partition_by = optimize_partition_by(source, destination, partition_by, label)
